@@ -331,15 +331,23 @@ def render(prog: dict) -> str:
     return "\n".join(lines) + "\n"
 
 
-def build_module(prog: dict, seed: int = 0) -> nn.Module:
+def build_class(prog: dict):
+    """the program as a fresh nn.Module subclass (one new code object per call)"""
     src = render(prog)
     ns: Dict[str, Any] = dict(torch=torch, nn=nn, F=F, U=U)
     code = compile(src, f"<prog {prog_id(prog)}>", "exec")
     exec(code, ns)
     cls = ns["Prog_" + prog_id(prog)]
+    cls._verif_source = src
+    return cls
+
+
+def build_module(prog: dict, seed: int = 0, cls=None) -> nn.Module:
+    """an instance with parameters drawn from `seed`; pass `cls` to create several instances of ONE class (same code object)"""
+    cls = cls or build_class(prog)
     torch.manual_seed(seed)
     m = cls()
-    m._verif_source = src
+    m._verif_source = cls._verif_source
     return m
 
 
